@@ -285,6 +285,68 @@ static void jit_runtime_cases() {
   }
 }
 
+
+// JitRuntime::add with an address table that is NOT the last section: the span the allocator keeps for the function must cover
+// the whole relocated image (the size reduction for unused address-table slots applies only when the table is last), the
+// installed bytes equal the relocated image of an identical holder, and they survive the next add().
+static void jit_addrtab_cases() {
+  vh::Ctx& c = vh::ctx();
+  static const int kTail[] = {4, 8, 16, 40, 52, 56, 60, 64, 100, 4000};
+  for (int near_target = 0; near_target < 2; near_target++) for (int with_tail = 0; with_tail < 2; with_tail++) for (int tail : kTail) for (int ncalls = 1; ncalls <= 2; ncalls++) {
+    if (!with_tail && tail != 4) continue;
+    JitRuntime rt;
+    std::string rp = "harness=c04_reloc\njit=100\n";   // replay runs the whole (small) family
+    char desc[160]; snprintf(desc, sizeof desc, "near=%d tail_section=%d tail=%d calls=%d", near_target, with_tail, tail, ncalls);
+    int (*helper)() = nullptr;
+    { CodeHolder h; h.init(rt.environment(), rt.cpu_features()); x86::Assembler a(&h); a.mov(x86::eax, 7); a.ret(); if (rt.add(&helper, &h) != Error::kOk) { c.violation("reloc:jit:add-failed", "JitRuntime::add of the helper failed", rp); continue; } }
+    uint64_t target = near_target ? uint64_t(uintptr_t(helper)) : 0x00007F0012345000ull;
+    auto gen = [&](CodeHolder& code) -> Error {
+      code.init(rt.environment(), rt.cpu_features());
+      x86::Assembler a(&code);
+      Label tl = a.new_label(), skip = a.new_label();
+      a.xor_(x86::eax, x86::eax);
+      if (!near_target) a.jmp(skip);                       // the far target is never called
+      for (int i = 0; i < ncalls; i++) a.call(Imm(target)); // absolute target: reserves an address-table slot
+      a.bind(skip);
+      if (with_tail) a.add(x86::eax, x86::dword_ptr(tl));
+      a.ret();
+      if (with_tail) {
+        Section* t = nullptr;
+        ASMJIT_PROPAGATE(code.new_section(Out(t), ".tail", SIZE_MAX, SectionFlags::kNone, 4, INT_MAX));   // same order as .addrtab, created later: sorts behind it
+        a.section(t);
+        a.bind(tl); a.embed_uint32(1000);
+        for (int i = 4; i + 4 <= tail; i += 4) a.embed_uint32(0xA5000000u + uint32_t(i));
+      }
+      return Error::kOk;
+    };
+    CodeHolder code; if (gen(code) != Error::kOk) { c.violation("reloc:jit:harness", "generator failed", rp); continue; }
+    int (*fn)() = nullptr;
+    c.n("evaluations")++;
+    if (rt.add(&fn, &code) != Error::kOk || !fn) { c.violation("reloc:jit:add-failed", std::string("JitRuntime::add failed: ") + desc, rp); continue; }
+    CodeHolder ref; gen(ref);
+    ref.flatten(); ref.resolve_cross_section_fixups(); ref.relocate_to_base(uint64_t(uintptr_t(fn)));
+    std::vector<uint8_t> img(ref.code_size());
+    ref.copy_flattened_data(img.data(), img.size(), CopySectionFlags::kPadSectionBuffer);
+    // every section must lie inside the span
+    size_t image_end = 0;
+    for (Section* s : ref.sections()) image_end = std::max<size_t>(image_end, size_t(s->offset()) + size_t(s->real_size()));
+    JitAllocator::Span span;
+    if (rt.allocator().query(Out(span), (void*)fn) != Error::kOk) { c.violation("reloc:jit:query", std::string("the allocator does not know the installed function: ") + desc, rp); continue; }
+    if (span.size() < image_end)
+      c.violation("reloc:jit:span-too-small", "the allocator keeps " + std::to_string(span.size()) + " bytes for a function whose last section ends at " + std::to_string(image_end) + " (" + desc + ")", rp);
+    if (memcmp(img.data(), (void*)fn, image_end) != 0) c.violation("reloc:jit:image-differs", std::string("bytes installed by JitRuntime::add differ from the relocated image of an identical holder: ") + desc, rp);
+    // the next functions must not land inside the image
+    std::vector<uint8_t> before((uint8_t*)fn, (uint8_t*)fn + image_end);
+    void* more[3] = {nullptr, nullptr, nullptr};
+    for (int k = 0; k < 3; k++) { CodeHolder g; g.init(rt.environment(), rt.cpu_features()); x86::Assembler a(&g); for (int i = 0; i < 40 + 30 * k; i++) a.mov(x86::ecx, 0xEEEEEEEE); a.ret(); (void)rt.add(&more[k], &g); }
+    if (memcmp(before.data(), (void*)fn, image_end) != 0) c.violation("reloc:jit:overwritten", std::string("a later JitRuntime::add overwrote bytes of the installed function: ") + desc, rp);
+    int want = (near_target ? 7 : 0) + (with_tail ? 1000 : 0);
+    int got = fn();
+    if (got != want) c.violation("reloc:jit:wrong-result", "installed function returned " + std::to_string(got) + ", expected " + std::to_string(want) + " (" + desc + ")", rp);
+    c.outcomes.insert(std::string("jit-at") + (near_target ? "n" : "f") + (with_tail ? "t" : "-"));
+  }
+}
+
 static Case parse_case(const std::string& t) {
   Case cs; cs.arch = AX64; cs.base = 0x10000; cs.known_base = false; cs.extra_section = false;
   for (auto& line : vh::split(t, '\n')) {
@@ -304,12 +366,14 @@ int main(int argc, char** argv) {
   vh::parse_args(argc, argv);
   vh::Ctx& c = vh::ctx();
   if (c.replaying()) {
+    if (c.replay_text.find("jit=100") != std::string::npos) { jit_addrtab_cases(); for (auto& v : c.violations) v.replay = c.replay_text; return vh::finish(); }
     if (c.replay_text.find("jit=") != std::string::npos) { jit_runtime_cases(); for (auto& v : c.violations) v.replay = c.replay_text; return vh::finish(); }
     Case cs = parse_case(c.replay_text);
     if (!run_case(cs)) report(cs);
     return vh::finish();
   }
   if (c.shard_i == 0) jit_runtime_cases();
+  if (c.shard_i == 1 % c.shard_n) jit_addrtab_cases();
   long long idx = 0;
   int max_items = c.thorough() ? 2 : 2;
   for (int arch = 0; arch < 3; arch++) {
